@@ -659,8 +659,17 @@ func split(statements []*Statement) [][]*Statement {
 	for _, s := range statements {
 		ds.add(s.Subject.Value)
 		ds.add(s.Object.Value)
-		if isBlank(s.Subject.Value) && isBlank(s.Object.Value) {
-			ds.union(ds.find(s.Subject.Value), ds.find(s.Object.Value))
+		// A blank node used as a graph name connects the statements of
+		// that graph like any other blank node.
+		var blanks []string
+		for _, t := range []string{s.Subject.Value, s.Object.Value, s.Label.Value} {
+			if isBlank(t) {
+				ds.add(t)
+				blanks = append(blanks, t)
+			}
+		}
+		for _, t := range blanks[min(1, len(blanks)):] {
+			ds.union(ds.find(blanks[0]), ds.find(t))
 		}
 	}
 
@@ -676,6 +685,8 @@ func split(statements []*Statement) [][]*Statement {
 			t = s.Subject.Value
 		case isBlank(s.Object.Value):
 			t = s.Object.Value
+		case isBlank(s.Label.Value):
+			t = s.Label.Value
 		default:
 			ground = append(ground, s)
 			continue
